@@ -67,8 +67,13 @@ def generate(name, workdir):
             if key not in unit_leaves[un]:
                 raise Undecided("leaf %s not produced by unit %s" % (key, un))
             lf = unit_leaves[un][key]
+            expr = lf["expr"]
+            for pat, repl in crate.get("leaf_subs", {}).get(key, []):
+                expr, n = re.subn(pat, repl, expr)
+                if n == 0:
+                    raise Undecided("leaf %s: substitution %r no longer matches" % (key, pat))
             lines.append("    // ---- leaf text lifted by R14 from %s (%s)" % (lf["src"], key))
-            lines.append("    " + lf["expr"])
+            lines.append("    " + expr)
             log["R14-leaf"] = log.get("R14-leaf", 0) + 1
         else:
             lines.append(ln)
